@@ -54,7 +54,7 @@ pub fn gen_base(seed: u64, idx: u64) -> Plan {
                     c.read_chunk = r.usize_in(200, 1500);
                     c.read_gap_ms = r.range(5, 40);
                 } else {
-                    c.s2c = WirePolicy { seed: r.next_u64(), max_seg: 1400, lat_min: 5, lat_max: r.range(10, 60), cap: r.usize_in(512, 4096), max_write: 0 };
+                    c.s2c = WirePolicy { seed: r.next_u64(), max_seg: 1400, lat_min: 5, lat_max: r.range(10, 60), cap: r.usize_in(512, 4096), max_write: 0 , opaque: false};
                 }
                 steps.push(Step::Send { data: Blob(w.bytes()), completes: Some(0) });
                 steps.push(Step::AwaitResponses { count: 1, max_ms: AWAIT_MS });
